@@ -8,7 +8,7 @@ import numpy as np
 
 from gmat import subblock_has_near_unit_eigenvalue, gmat, judge, run_solver
 
-UNITS = ["EigStruct"]
+UNITS = ["EigStruct", "ShapesAuxEig", "SkelEig"]
 PROPS = ["props/C15.v"]
 ASSUMPTIONS = ["numpy.linalg.eigh / LAPACK syevr return an orthonormal eigenbasis (conformance: the dense reference of the oracle uses the same routine on the whole matrix)",
                "the 1e-8 window and np.isclose are modelled as exact tests; generated spectra keep non-unit eigenvalues below 0.999"]
